@@ -17,7 +17,7 @@ vars == <<l, viols, lc, loopg, hs, pend, req, eng>>
 
 NewC == [life |-> "none", g |-> 0, loop |-> -1, h |-> 0, praddr |-> "", plisten |-> "", localReq |-> FALSE, peerShut |-> "no",
          traffic |-> 0, wakeTraffic |-> 0, wakeCb |-> 0, wakeIss |-> 0]
-NewE == [booted |-> FALSE, stopReq |-> FALSE, onShutdown |-> 0, runRet |-> FALSE, opened |-> 0, closed |-> 0]
+NewE == [booted |-> FALSE, stopReq |-> FALSE, onShutdown |-> 0, runRet |-> FALSE, opened |-> 0, closed |-> 0, bootStop |-> FALSE]
 C(c) == Get(lc, c, NewC)
 
 Init == /\ l = 1 /\ viols = <<>> /\ lc = Empty /\ loopg = Empty /\ hs = {} /\ pend = Empty /\ req = Empty /\ eng = NewE
@@ -105,19 +105,22 @@ Step1 ==
                   lost == {a \in DOMAIN req : req[a].accepted /\ ~req[a].nocb /\ ~req[a].afterStop /\ req[a].cbs # 1}
                   v2 == Check(lost = {}, "AcceptedRunsExactlyOnce", lost, v1)
               IN Same(v2)
-         [] e.ev = "StopReq" -> Step(lc, loopg, hs, pend, req, [eng EXCEPT !.stopReq = TRUE], viols)
+         [] e.ev = "StopReq" -> Step(lc, loopg, hs, pend, req, [eng EXCEPT !.stopReq = TRUE, !.bootStop = (@ \/ e.src = "OnBoot")], viols)
          [] e.ev = "OnShutdown" ->
               Step(lc, loopg, hs, pend, req, [eng EXCEPT !.onShutdown = @ + 1],
                    Check(eng.onShutdown = 0, "OnShutdownOnce", eng.onShutdown + 1, Final(viols, "OnShutdown")))
-         [] e.ev = "Tick" -> Same(Final(viols, "Tick"))
+         [] e.ev \in {"Tick", "TickEnd"} -> Same(Final(viols, e.ev))
          [] e.ev = "RunRet" ->
               LET open == {c \in DOMAIN lc : lc[c].life = "open"}
                   v1 == Check(e.err = "nil", "RunReturnsNil", e.err, viols)
                   v2 == Check(open = {}, "AllOpenedClosedBeforeReturn", open, v1)
-                  v3 == Check(eng.onShutdown = 1, "OnShutdownOnce", eng.onShutdown, v2)
+                  \* a Shutdown action from OnBoot: Run returns at once without starting anything (no callbacks at all)
+                  v3 == Check(IF eng.bootStop THEN eng.onShutdown = 0 /\ eng.opened = 0 ELSE eng.onShutdown = 1,
+                              IF eng.bootStop THEN "BootShutdownStartsNothing" ELSE "OnShutdownOnce", eng.onShutdown, v2)
               IN Step(lc, loopg, hs, pend, req, [eng EXCEPT !.runRet = TRUE], v3)
          [] e.ev \in {"RunStuck", "PeersTimeout", "OpenUnknown", "TrafficUnknown", "CloseUnknown"} ->
-              Same(Check(FALSE, IF e.ev = "RunStuck" THEN "RunReturnsInBoundedTime" ELSE "NeverOnOtherConn", e.ev, viols))
+              Same(Check(FALSE, IF e.ev = "RunStuck" THEN "RunReturnsInBoundedTime"
+                                ELSE IF e.ev = "PeersTimeout" THEN "PeersServedInBoundedTime" ELSE "NeverOnOtherConn", e.ev, viols))
          [] OTHER -> Same(viols)
 
 Next == Step1 \/ FinishWith(<<lc, loopg, hs, pend, req, eng>>)
